@@ -40,6 +40,7 @@ PROBES = ["add_to_unterminated_document", "replace_field_that_has_comments",
           "file_object_dropped_paragraph_kept", "set_through_set_field_methods",
           "view_without_auto_resolve", "multi_line_value_through_set_field_from_raw_string",
           "key_object_taken_from_iteration", "same_call_repeated",
+          "step_without_any_rendering", "assignment_under_an_invalid_field_name",
           "name_token_as_key", "name_token_of_a_replaced_or_deleted_field_as_key"]
 
 
